@@ -33,16 +33,33 @@ class Ctx:
         f = os.path.realpath(self.a5.__file__)
         if not f.startswith(self.root + os.sep):
             raise RuntimeError('a5 imported from %s, expected under %s' % (f, self.root))
-        try:
-            self.hotset = engine.hot_lines(os.path.join(self.root, 'a5') + os.sep)  # (filename, line)
-        except Exception:
-            self.hotset = set()          # only a bias; never needed for soundness
+        # The template must stay cold.  The static scan below only inspects objects, but to be sure a
+        # monitor counts a5 line events while it runs: any event means library code was executed.
+        self.template_warmed = 0
+        self.hotset = set()
+        if not os.environ.get('A5SIM_NO_HOT'):
+            guard = engine.Seam(self.root, 'line')
+            guard.install()
+            cnt = [0]
+
+            def _count(code, pos):
+                cnt[0] += 1
+            guard.handler = _count
+            try:
+                self.hotset = engine.hot_lines(os.path.join(self.root, 'a5') + os.sep)  # (filename, line)
+            except Exception:
+                self.hotset = set()      # only a bias; never needed for soundness
+            finally:
+                guard.handler = None
+                guard.uninstall()
+            self.template_warmed = cnt[0]
         pre = len(os.path.join(self.root, 'a5') + os.sep)
         self.hot = {'%s:%d' % (f[pre:], l) for f, l in self.hotset}                   # 'rel/path.py:line'
         # library at-fork handlers (e.g. "give the child a new lock") run inside os.fork(): the seam
         # must be installed at that moment, or the child would get real, uninterceptable primitives
         forks.before_fork = engine.patch_threading
         forks.after_fork_in_parent = engine.unpatch_threading
+        self.oracle_log = None           # when a list: every reference call asked for is appended (triage only)
         self._memo = {}
         self._tmemo = {}
         self._frame = None
@@ -63,6 +80,8 @@ class Ctx:
         """gran='line' is the reference (value, line-step count); gran='instr' only adds
         instruction-level step counts and traces for placing instruction-level preemptions;
         gran='ipoint' adds the call's interrupt points ('isteps', 'itrace') for placing faults."""
+        if self.oracle_log is not None and gran == 'line':
+            self.oracle_log.append(call)
         k = call_key(call) if gran == 'line' else {'instr': 'N#', 'ipoint': 'P#'}[gran] + call_key(call)
         if gran == 'ipoint':
             want_trace = True
